@@ -67,6 +67,20 @@ var r01hPrims = map[string]string{
 var r01hTypes = map[string]bool{"uint64T": true, "uint32T": true, "byteT": true, "boolT": true, "stringT": true, "unitT": true,
 	"anyT": true, "ptrT": true, "fileT": true, "disk.Disk": true, "disk.blockT": true, "ProphIdT": true}
 
+// r01hRoles: operand order of library calls whose operands have the same GooseLang type and could be exchanged
+// unnoticed. For the i-th operand after the name, the key of the value must contain one of the alternatives
+// (separated by |); "" leaves the operand unchecked.
+var r01hRoles = map[string][]string{
+	"NewMap":        {".Key", ".Elem()|.Value"},
+	"MapGet":        {".X", ".Index"},
+	"SliceGet":      {"", ".X", ".Index"},
+	"MapDelete":     {"Args[0]", "Args[1]"},
+	"SliceTake":     {".X", ".High"},
+	"SliceSkip":     {"", ".X", ".Low"},
+	"SliceSubslice": {"", ".X", ".Low", ".High"},
+	"zero_array":    {".Elem()", ""},
+}
+
 type emitSite struct {
 	name string
 	in   ssa.Instruction
@@ -154,6 +168,60 @@ func checkR01h(p *Prog, r *Report) {
 		sort.Strings(typeFacts)
 		r.Check("R01h", fmt.Sprintf("%s (operand kind %s)", key, strings.Join(kinds, " or ")), instrPos(s.in), found != "",
 			fmt.Sprintf("%s is the GooseLang operation for %s values, but no dominating fact at this emission says the operand is one (type facts here: %v): a value of another kind would be given this operation", s.name, strings.Join(kinds, "/"), typeFacts))
+	}
+	// operand order
+	for _, s := range sites {
+		roles, ok := r01hRoles[s.name]
+		c, isCall := s.in.(*ssa.Call)
+		if mi, isMI := s.in.(*ssa.MakeInterface); isMI {
+			for _, rf := range refs(mi) {
+				if cc, ok := rf.(*ssa.Call); ok && len(cc.Call.Args) > 0 && cc.Call.Args[0] == ssa.Value(mi) {
+					c, isCall = cc, true
+				}
+			}
+		}
+		if !ok || !isCall || calleeName(c) != coqPkg+".NewCallExpr" || len(c.Call.Args) < 2 {
+			continue
+		}
+		// the variadic operands: a slice literal built just before the call
+		var ops []string
+		if sl, ok := c.Call.Args[1].(*ssa.Slice); ok {
+			if al, ok := sl.X.(*ssa.Alloc); ok {
+				byIdx := map[int64]string{}
+				for _, rf := range refs(al) {
+					if ia, ok := rf.(*ssa.IndexAddr); ok {
+						idx, okc := constInt(ia.Index)
+						for _, r2 := range refs(ia) {
+							if st, ok := r2.(*ssa.Store); ok && okc {
+								byIdx[idx] = sk(st.Val)
+							}
+						}
+					}
+				}
+				for i := int64(0); i < int64(len(byIdx)); i++ {
+					ops = append(ops, byIdx[i])
+				}
+			}
+		}
+		if len(ops) < len(roles) {
+			continue
+		}
+		bad := ""
+		for i, role := range roles {
+			if role == "" {
+				continue
+			}
+			hit := false
+			for _, alt := range strings.Split(role, "|") {
+				if strings.Contains(ops[i], alt) {
+					hit = true
+				}
+			}
+			if !hit {
+				bad = fmt.Sprintf("operand %d of %s is %s, expected the %s of the construct", i+1, s.name, ops[i], role)
+			}
+		}
+		r.Check("R01h", fmt.Sprintf("%s passes the operands of %s in order", FuncName(s.fn), s.name), instrPos(s.in), bad == "", bad)
 	}
 	for n := range r01hAffinity {
 		if !seenAff[n] {
